@@ -403,7 +403,7 @@ func c13Main(fl *evid.Flags) int {
 	run.Assume("FloatingIP objects in the fake galaxy clientset are the persisted truth of what galaxy-ipam allocated")
 	run.Assume("the API server merges a Binding's annotations into the pod (the harness does that merge)")
 	run.Assume("mask/gateway/vlan truth comes from the generator's pool structures from which the config text was rendered")
-	total := evid.Tiered(fl.Tier, 2400, 10000)
+	total := evid.Tiered(fl.Tier, 2400, 150000)
 	perWorld := evid.Tiered(fl.Tier, 30, 40)
 	nWorlds := (total + perWorld - 1) / perWorld
 	workers := evid.Tiered(fl.Tier, 8, 12)
